@@ -68,7 +68,9 @@ class C03(object):
             # ... integer constants nothing refers to, negative constants raised to a power, numbers written .5, 5., 1E-3, +3
             case['text'] = ('ns_prev = ns_G(k-1)\nns_use = 0.5*ns_prev + ns_G\nns_five = 5\nns_n = -3\nns_neg = -1.5\n'
                             'ns_sq = ns_neg**2\nns_cube = ns_n**3 + ns_sq\nns_a = .5\nns_b = 5.\nns_c = 1E-3\nns_d = +3\n'
-                            'ns_mix = ns_a*ns_b + ns_c**2 - ns_d**2 + ns_n**2\nns_flag = ns_n > -5\nns_gate = (ns_b >= 5)*ns_a\n') + case['text']
+                            'ns_mix = ns_a*ns_b + ns_c**2 - ns_d**2 + ns_n**2\nns_flag = ns_n > -5\nns_gate = (ns_b >= 5)*ns_a\n'
+                            # a mirror image of another variable, used as the base of a power, in a product and under a unary minus
+                            'ns_mir = -ns_use\nns_pen = 0.125*ns_mir**2 - ns_mir + 2*-ns_mir\nns_mir2 = - ns_prev\nns_q = ns_mir2**3/(1 + ns_mir2**2)\n') + case['text']
             case['number_shapes'] = True
         if rng.random() < 0.2:
             # an alias whose NAME looks like a number suffix, used next to literals spelled with a bare dot
